@@ -458,7 +458,15 @@ func (w *World) Load(n *Node, vs []*accountant.Vertex) error {
 		err = context.Cause(ctx)
 	}
 	cancel(nil)
-	w.c.Line("LOAD %d %s | %s | %s", n.id, strings.Join(names, ","), errTag(err), w.Snap(n))
+	snap := w.Snap(n)
+	if err != nil {
+		// after a failed load the set of edges already linked depends on Go's map iteration order
+		if i := strings.Index(snap, " E="); i >= 0 {
+			j := strings.Index(snap[i+1:], " ")
+			snap = snap[:i] + " E=?" + snap[i+1+j:]
+		}
+	}
+	w.c.Line("LOAD %d %s | %s | %s", n.id, strings.Join(names, ","), errTag(err), snap)
 	w.after(n, "load", err)
 	return err
 }
